@@ -1550,3 +1550,180 @@ pub fn stream_until_stop_scenario(ch: &mut Chooser, _thorough: bool) -> Exec {
     }
     Exec { outcome: Digest::of64(&obs), violation, features: vec![] }
 }
+
+/// C06, a single lost packet around the close handshake while one side still has unread data:
+/// the connector writes `n` bytes, shuts down, reads to end-of-file and drops its stream; the
+/// acceptor shuts down its own write side `w1` rounds after accepting -- without having read --
+/// and reads to end-of-file only `w2` rounds later. The k-th packet the connector emits is
+/// lost (k ranges over everything it sends: SYN, data, FIN, the ACK of the acceptor's FIN).
+/// One loss is within every retransmit budget: the acceptor must read all `n` bytes and then
+/// EOF, the connector must see EOF, and neither may get an error.
+pub fn close_with_unread_scenario(ch: &mut Chooser, _thorough: bool) -> Exec {
+    let lat: u32 = 1 + ch.choose("one_way_latency_rounds_minus_1", 2) as u32;
+    let lose_k: usize = ch.choose("lost_packet_index_among_the_connectors_packets", 8);
+    let w1: u32 = *ch.of("acceptor_shuts_down_after_rounds", &[0u32, 4]);
+    let w2: u32 = *ch.of("acceptor_reads_after_further_rounds", &[0u32, 10, 30]);
+    let n: usize = 4;
+    let (thr, max) = (3u32, 6u32);
+    let kc = KernelConfig::default().mtu(1500).retx_threshold(thr).retx_max(max);
+    let mut net = Net::with_config(kc);
+    let (cip, sip): (IpAddr, IpAddr) = ("10.0.0.1".parse().unwrap(), "10.0.0.2".parse().unwrap());
+    let c = net.add_host(cip);
+    let s = net.add_host(sip);
+    let hosts = [c, s];
+    let guard = net.enter();
+    let round: Rc<RefCell<u32>> = Rc::new(RefCell::new(0));
+    #[derive(Default)]
+    struct Log {
+        s_read: Vec<u8>,
+        s_eof: bool,
+        c_eof: bool,
+        err: Vec<String>,
+        done: [bool; 2],
+    }
+    let log: Rc<RefCell<Log>> = Rc::new(RefCell::new(Log::default()));
+    let wait = |round: Rc<RefCell<u32>>, k: u32| {
+        let until = *round.borrow() + k;
+        std::future::poll_fn(move |cx| {
+            if *round.borrow() >= until {
+                std::task::Poll::Ready(())
+            } else {
+                cx.waker().wake_by_ref();
+                std::task::Poll::Pending
+            }
+        })
+    };
+    let mut exec = Executor::new();
+    {
+        let (log, round) = (log.clone(), round.clone());
+        exec.spawn(1, async move {
+            let Ok(l) = TcpListener::bind(SocketAddr::new(sip, 80)).await else { return };
+            let Ok((mut st, _)) = l.accept().await else { return };
+            wait(round.clone(), w1).await;
+            if let Err(e) = st.shutdown().await {
+                log.borrow_mut().err.push(format!("acceptor: shutdown: {}", errk(&e)));
+            }
+            wait(round.clone(), w2).await;
+            let mut buf = [0u8; 16];
+            loop {
+                match st.read(&mut buf).await {
+                    Ok(0) => {
+                        log.borrow_mut().s_eof = true;
+                        break;
+                    }
+                    Ok(k) => log.borrow_mut().s_read.extend_from_slice(&buf[..k]),
+                    Err(e) => {
+                        log.borrow_mut().err.push(format!("acceptor: read: {}", errk(&e)));
+                        break;
+                    }
+                }
+            }
+            drop(st);
+            log.borrow_mut().done[1] = true;
+            std::future::pending::<()>().await;
+            drop(l);
+        });
+    }
+    {
+        let log = log.clone();
+        exec.spawn(0, async move {
+            let mut st = match TcpStream::connect(SocketAddr::new(sip, 80)).await {
+                Ok(s) => s,
+                Err(e) => {
+                    log.borrow_mut().err.push(format!("connect: {}", errk(&e)));
+                    log.borrow_mut().done[0] = true;
+                    return;
+                }
+            };
+            let data: Vec<u8> = (0..n).map(|i| i as u8 + 1).collect();
+            if let Err(e) = st.write_all(&data).await {
+                log.borrow_mut().err.push(format!("connector: write: {}", errk(&e)));
+            }
+            if let Err(e) = st.shutdown().await {
+                log.borrow_mut().err.push(format!("connector: shutdown: {}", errk(&e)));
+            }
+            let mut buf = [0u8; 16];
+            loop {
+                match st.read(&mut buf).await {
+                    Ok(0) => {
+                        log.borrow_mut().c_eof = true;
+                        break;
+                    }
+                    Ok(_) => log.borrow_mut().err.push("connector: read data although the acceptor never wrote".into()),
+                    Err(e) => {
+                        log.borrow_mut().err.push(format!("connector: read: {}", errk(&e)));
+                        break;
+                    }
+                }
+            }
+            drop(st);
+            log.borrow_mut().done[0] = true;
+        });
+    }
+    let mut wire: VecDeque<(u32, turmoil_net::Packet)> = VecDeque::new();
+    let horizon = 300u32;
+    let mut sent_by_connector = 0usize;
+    let mut lost_desc = String::from("none (the connector sent fewer packets)");
+    let mut finished_at = None;
+    for r in 0..horizon {
+        *round.borrow_mut() = r;
+        while wire.front().map(|(t, _)| *t <= r).unwrap_or(false) {
+            let (_, p) = wire.pop_front().unwrap();
+            guard.deliver(p);
+        }
+        exec.run_until_stalled(4000, |tag| turmoil_net::set_current(hosts[tag as usize]));
+        let mut out = vec![];
+        guard.egress_all(&mut out);
+        for p in out {
+            if std::env::var("VX_TRACE").is_ok() {
+                if let turmoil_net::Transport::Tcp(sg) = &p.payload {
+                    eprintln!("round {r}: {} -> {} syn={} ack={} fin={} rst={} seq={:#x} ackno={:#x} len={}", p.src, p.dst, sg.flags.syn, sg.flags.ack, sg.flags.fin, sg.flags.rst, sg.seq, sg.ack, sg.payload.len());
+                }
+            }
+            if p.src == cip {
+                let idx = sent_by_connector;
+                sent_by_connector += 1;
+                if idx == lose_k {
+                    lost_desc = match &p.payload {
+                        turmoil_net::Transport::Tcp(sg) => format!("#{idx} (syn={} fin={} rst={} payload {} bytes)", sg.flags.syn, sg.flags.fin, sg.flags.rst, sg.payload.len()),
+                        _ => format!("#{idx}"),
+                    };
+                    continue;
+                }
+            }
+            wire.push_back((r + lat, p));
+        }
+        let l = log.borrow();
+        if l.done[0] && l.done[1] {
+            finished_at = Some(r);
+            break;
+        }
+    }
+    let l = log.borrow();
+    let want: Vec<u8> = (0..n).map(|i| i as u8 + 1).collect();
+    let what = format!(
+        "the connector writes {n} bytes, shuts down, reads to EOF and drops; the acceptor shuts down after {w1} rounds without reading and reads {w2} rounds later; lost: the connector's packet {lost_desc} (latency {lat}, retx_threshold {thr}, retx_max {max})"
+    );
+    let mut violation: Option<Violation> = None;
+    if !l.err.is_empty() {
+        violation = Some(Violation::new("aborted", format!("{what}: {:?}; the acceptor had read {:?}", l.err, l.s_read)));
+    } else if l.s_read != want || !l.s_eof || !l.c_eof {
+        violation = Some(Violation::new(
+            "stall",
+            format!("{what}: after {horizon} rounds the acceptor has read {:?} (EOF {}), the connector has seen EOF: {}", l.s_read, l.s_eof, l.c_eof),
+        ));
+    }
+    drop(l);
+    drop(exec);
+    drop(guard);
+    let obs = format!("lat={lat} lose_k={lose_k} w1={w1} w2={w2} lost={lost_desc} finished_at={finished_at:?}");
+    if let Some(v) = violation.as_mut() {
+        // which packet was lost is part of the signature: the final ACK of the close handshake is
+        // one defect (no TIME_WAIT), anything else would be another
+        let kind = if lost_desc.contains("syn=false fin=false rst=false payload 0") { "pure-ack-lost" } else { "other-packet-lost" };
+        v.sig = format!("close-with-unread|{}|{kind}", v.clause);
+        v.scenario = format!("c06-close-with-unread {obs}");
+        v.actions = vec![obs.clone()];
+    }
+    Exec { outcome: Digest::of64(&obs), violation, features: vec![] }
+}
